@@ -36,6 +36,26 @@ type admission struct {
 	HiddenMsg      string
 	FinalVars      string // variables JSON after normalization
 	PanicSite      string // first repository frame below the panic
+	// the same step on the long-lived validator instances that are re-used for
+	// every request of the process (ReuseRan is false when no validator ran)
+	ReuseRan            bool
+	ReuseAccepted       bool
+	ReuseMsg            string
+	ReuseHiddenAccepted bool
+	ReuseHiddenMsg      string
+}
+
+// reusePair are the long-lived validator instances: one with and one without
+// DisableExposingVariablesContent. They see every request the fresh instances see.
+type reusePair struct {
+	exposed, hidden *variablesvalidation.VariablesValidator
+}
+
+func newReusePair() *reusePair {
+	return &reusePair{
+		exposed: variablesvalidation.NewVariablesValidator(variablesvalidation.VariablesValidatorOptions{}),
+		hidden:  variablesvalidation.NewVariablesValidator(variablesvalidation.VariablesValidatorOptions{DisableExposingVariablesContent: true}),
+	}
 }
 
 // panicSite extracts the function of the first repository frame after the panic call.
@@ -82,18 +102,19 @@ func (e *engineSchemas) get(sdl string) *graphql.Schema {
 // admit replays, step by step, what ExecutionEngine.Execute
 // (execution/engine/execution_engine.go) does with a request before planning.
 // variables == "" means the request has no "variables" member.
-func admit(schema *graphql.Schema, query, variables string) (adm admission) {
+// ru (optional) are the re-used validator instances; they run after the fresh ones.
+func admit(schema *graphql.Schema, query, variables string, ru *reusePair) (adm admission) {
 	defer func() {
 		if p := recover(); p != nil {
 			adm = admission{Accepted: false, Stage: "panic", Msg: fmt.Sprint(p), PanicSite: panicSite(string(debug.Stack()))}
 		}
 	}()
-	return admitNoRecover(schema, query, variables)
+	return admitNoRecover(schema, query, variables, ru)
 }
 
 func graphqlNew(sdl string) (*graphql.Schema, error) { return graphql.NewSchemaFromString(sdl) }
 
-func admitNoRecover(schema *graphql.Schema, query, variables string) (adm admission) {
+func admitNoRecover(schema *graphql.Schema, query, variables string, ru *reusePair) (adm admission) {
 	op := &graphql.Request{Query: query}
 	if variables != "" {
 		op.Variables = json.RawMessage(variables)
@@ -143,6 +164,20 @@ func admitNoRecover(schema *graphql.Schema, query, variables string) (adm admiss
 			adm.HiddenMsg = err.Error()
 		} else {
 			adm.HiddenAccepted = true
+		}
+		// the same inputs on the re-used instances
+		if ru != nil {
+			adm.ReuseRan = true
+			if err := ru.exposed.ValidateWithRemap(op.Document(), schema.Document(), validated, remap); err != nil {
+				adm.ReuseMsg = err.Error()
+			} else {
+				adm.ReuseAccepted = true
+			}
+			if err := ru.hidden.ValidateWithRemap(op.Document(), schema.Document(), validated, remap); err != nil {
+				adm.ReuseHiddenMsg = err.Error()
+			} else {
+				adm.ReuseHiddenAccepted = true
+			}
 		}
 	}
 	return adm
